@@ -2,7 +2,7 @@
 """Prints the markdown table of seeded bugs (DESIGN.md 13.4) from seeded/*/meta.json."""
 import glob, json, os
 print("| Seeded bug | What was changed | Detected by |\n|---|---|---|")
-for d in sorted(glob.glob(os.path.join(os.path.dirname(__file__), "..", "seeded", "*"))):
+for d in sorted(p for p in glob.glob(os.path.join(os.path.dirname(__file__), "..", "seeded", "*")) if os.path.isdir(p)):
     m = json.load(open(os.path.join(d, "meta.json")))
     det = ", ".join(m.get("detected_by_checks", [])) or "NOT DETECTED"
     note = m.get("note", "")
